@@ -76,6 +76,8 @@ func main() {
 		runC07(cfg)
 	case "c11":
 		runC11(cfg)
+	case "c11p":
+		runRootPatch(cfg)
 	case "c13":
 		runC13(cfg)
 	default:
